@@ -58,6 +58,14 @@ theorem ordered_traces (w : World) (op : Op) : ∀ ep ∈ episodes w op, traceOK
     obtain ⟨id, _, e⟩ := hep
     subst e
     exact workloads_ok w ig [id] [] (by intro h hm; cases hm)
+  | replace ids =>
+    simp only [episodes, List.mem_flatMap, List.mem_cons, List.not_mem_nil, or_false] at hep
+    obtain ⟨id, _, e | e⟩ := hep
+    · subst e; exact workloads_ok w false [id] [] (by intro h hm; cases hm)
+    · subst e
+      split
+      · exact nodeOpLocked_ok _ _
+      · simp [R, run]
   | remap node =>
     simp only [episodes, List.mem_singleton] at hep
     subst hep; exact nodeOpLocked_ok _ _
